@@ -40,6 +40,8 @@ func main() {
 		os.Exit(cmdWorker(os.Args[2:]))
 	case "replay":
 		os.Exit(cmdReplay(os.Args[2:]))
+	case "c10witness":
+		os.Exit(cmdC10Witness())
 	case "filefault":
 		os.Exit(cmdFileFault(os.Args[2:]))
 	case "list":
